@@ -449,6 +449,9 @@ fn ops(m: &Model, ctx: &mut Ctx) {
         ("a..c|x", vec![('a', 'c'), ('x', 'x')]),
         ("c..k", vec![('c', 'k')]),
         ("0..9", vec![('0', '9')]),
+        // operands as written, not sorted: subsets are kept in source order until finalize()
+        ("x|a..c", vec![('x', 'x'), ('a', 'c')]),
+        ("cxa", vec![('c', 'c'), ('x', 'x'), ('a', 'a')]),
     ];
     let inl = inline_all(m, &["PerVisibleAlphabetConstraints"]);
     // `+=` on alphabets is the union the crate implements in AddAssign: evaluated from its own body
